@@ -142,11 +142,11 @@ theorem word_ne_nil (big w64 : Bool) (n : Nat) : word big w64 n ≠ [] := by
 
 theorem two32_le_wordBound (w64 : Bool) : two32 ≤ wordBound w64 := by cases w64 <;> decide
 
-theorem cpuSamplesLoop_rec (big w64 : Bool) (period f : Nat) (r : CpuRec)
+theorem cpuSamplesLoop_rec (big w64 : Bool) (mk : Nat → List Nat → RawSample) (f : Nat) (r : CpuRec)
     (hc : r.count < wordBound w64) (hl : r.addrs.length < two32) (ha : ∀ a ∈ r.addrs, a < wordBound w64)
     (hne : ¬ (r.count = 0 ∧ r.addrs = [0])) (R : Str) (acc : List RawSample) :
-    cpuSamplesLoop big w64 period (f+1) (words big w64 r.words ++ R) acc
-      = cpuSamplesLoop big w64 period f R (cpuSample period r.count r.addrs :: acc) := by
+    cpuSamplesLoop big w64 mk (f+1) (words big w64 r.words ++ R) acc
+      = cpuSamplesLoop big w64 mk f R (mk r.count r.addrs :: acc) := by
   have hnonempty : (words big w64 r.words ++ R).isEmpty = false := by
     simp only [CpuRec.words, words_cons, List.append_assoc]
     cases hq : word big w64 r.count with
@@ -173,22 +173,22 @@ theorem cpuSamplesLoop_rec (big w64 : Bool) (period f : Nat) (r : CpuRec)
     · simp [h1]
   simp only [heod, Bool.false_eq_true, if_false]
 
-theorem cpuSamplesLoop_recs (big w64 : Bool) (period : Nat) (rs : List CpuRec)
+theorem cpuSamplesLoop_recs (big w64 : Bool) (mk : Nat → List Nat → RawSample) (rs : List CpuRec)
     (h : ∀ r ∈ rs, r.count < wordBound w64 ∧ r.addrs.length < two32 ∧ (∀ a ∈ r.addrs, a < wordBound w64) ∧ ¬ (r.count = 0 ∧ r.addrs = [0]))
     (f : Nat) (T : Str) (acc : List RawSample) :
-    cpuSamplesLoop big w64 period (f + rs.length) (words big w64 (rs.flatMap CpuRec.words) ++ T) acc
-      = cpuSamplesLoop big w64 period f T ((rs.map (fun r => cpuSample period r.count r.addrs)).reverse ++ acc) := by
+    cpuSamplesLoop big w64 mk (f + rs.length) (words big w64 (rs.flatMap CpuRec.words) ++ T) acc
+      = cpuSamplesLoop big w64 mk f T ((rs.map (fun r => mk r.count r.addrs)).reverse ++ acc) := by
   induction rs generalizing acc with
   | nil => simp [words]
   | cons r rs ih =>
     obtain ⟨h1, h2, h3, h4⟩ := h r (by simp)
     have hlen : f + (r :: rs).length = (f + rs.length) + 1 := by simp; omega
     rw [hlen, List.flatMap_cons, words_append, List.append_assoc,
-      cpuSamplesLoop_rec big w64 period _ r h1 h2 h3 h4, ih (fun x hx => h x (by simp [hx]))]
+      cpuSamplesLoop_rec big w64 mk _ r h1 h2 h3 h4, ih (fun x hx => h x (by simp [hx]))]
     simp
 
-theorem cpuSamplesLoop_eod (big w64 : Bool) (period f : Nat) (text : Str) (acc : List RawSample) :
-    cpuSamplesLoop big w64 period (f+1) (words big w64 [0, 1, 0] ++ text) acc = .ok (acc.reverse, text) := by
+theorem cpuSamplesLoop_eod (big w64 : Bool) (mk : Nat → List Nat → RawSample) (f : Nat) (text : Str) (acc : List RawSample) :
+    cpuSamplesLoop big w64 mk (f+1) (words big w64 [0, 1, 0] ++ text) acc = .ok (acc.reverse, text) := by
   have h0 : 0 < wordBound w64 := by have := wordBound_pos w64; omega
   have h1 : 1 < wordBound w64 := by have := wordBound_pos w64; omega
   have hnonempty : (words big w64 [0, 1, 0] ++ text).isEmpty = false := by
@@ -214,8 +214,8 @@ theorem cpuSamplesLoop_eod (big w64 : Bool) (period f : Nat) (text : Str) (acc :
   simp only [hlen, if_false, hr]
   simp
 
-theorem cpuSamplesLoop_end (big w64 : Bool) (period f : Nat) (acc : List RawSample) :
-    cpuSamplesLoop big w64 period (f+1) [] acc = .ok (acc.reverse, []) := by
+theorem cpuSamplesLoop_end (big w64 : Bool) (mk : Nat → List Nat → RawSample) (f : Nat) (acc : List RawSample) :
+    cpuSamplesLoop big w64 mk (f+1) [] acc = .ok (acc.reverse, []) := by
   simp [cpuSamplesLoop]
 
 theorem words_recs_length (big w64 : Bool) (rs : List CpuRec) :
@@ -280,7 +280,7 @@ theorem cpuProfile_body (d : CpuDoc) (h : d.wf = true) :
   rw [hfuel, hf]
   rw [show d.body = words d.big d.w64 (d.recs.flatMap CpuRec.words) ++
     (words d.big d.w64 (if d.eod then [0, 1, 0] else []) ++ d.text) from rfl]
-  rw [cpuSamplesLoop_recs d.big d.w64 d.period d.recs hrecs']
+  rw [cpuSamplesLoop_recs d.big d.w64 (cpuSample d.period) d.recs hrecs']
   simp only [List.append_nil]
   unfold CpuDoc.text expectedCpu
   cases heod : d.eod with
@@ -299,7 +299,8 @@ theorem cpuProfile_body (d : CpuDoc) (h : d.wf = true) :
       simp only [tailMappings]
       rw [splitLines_unlines _ (LineOK_bodyLines hmwf), parseProcMaps_bodyLines m hmwf]
 
-theorem parseCPU_printCpu (d : CpuDoc) (h : d.wf = true) : parseCPU (printCpu d) = .ok (expectedCpu d) := by
+theorem parseCPUWith_printCpu (java : Bool → Bool → Nat → Str → Outcome Profile) (d : CpuDoc) (h : d.wf = true) :
+    parseCPUWith java (printCpu d) = .ok (expectedCpu d) := by
   have hwf := h
   simp only [CpuDoc.wf, Bool.and_eq_true, decide_eq_true_eq] at h
   obtain ⟨⟨⟨hp, hpb⟩, _⟩, _⟩ := h
@@ -308,7 +309,7 @@ theorem parseCPU_printCpu (d : CpuDoc) (h : d.wf = true) : parseCPU (printCpu d)
   have hright : cpuHeaderWords d.big d.w64 (printCpu d) = some (false, d.period, d.body) := by
     rw [printCpu_eq]; exact cpuHeaderWords_print d.big d.w64 d.period d.body hp hpb
   have hbody := cpuProfile_body d hwf
-  unfold parseCPU
+  unfold parseCPUWith
   cases hbig : d.big <;> cases hw : d.w64 <;> rw [hbig, hw] at hright hbody
   · -- 32-bit little endian: the first decoder
     simp only [hright, hbody]
